@@ -6,9 +6,11 @@
 (* (Layer P over the recorded events), the summaries are Layer-M diagnostics only.         *)
 EXTENDS Conn, Json
 
-CONSTANT MinSteps
-VARIABLES h, fin
-gvars == <<vars, h, fin>>
+CONSTANTS MinSteps,
+          Heavy,        \* stimulus kinds that are three times as likely as the others
+          FirstHeaders  \* TRUE: every behaviour starts by opening a stream
+VARIABLES h, fin, salt
+gvars == <<vars, h, fin, salt>>
 
 \* sets with negative members cannot be written in a cfg file
 Absent == {-1}
@@ -24,7 +26,7 @@ Summary ==
    st |-> st, inS |-> inS, outS |-> outS, buf |-> [s \in Sid |-> RunsLen(buf[s])],
    q |-> [s \in Sid |-> Len(sq[s])], hs |-> hs, sent |-> sent]
 
-GInit == Init /\ h = <<>> /\ fin = FALSE
+GInit == Init /\ h = <<>> /\ fin = FALSE /\ salt = 0
 
 \* Two-stage choice of the next stimulus (kind first, then its arguments): -simulate picks
 \* uniformly among successor STATES, so this makes every kind equally likely and keeps the
@@ -34,6 +36,7 @@ Early == nstep + 1 < MinSteps         \* stimuli that end the connection are fil
 Used == \E s \in SidsUsed : s <= maxId
 Kinds ==
   IF holdM.k # "" THEN {"CONT"} \cup (IF Early THEN {} ELSE {"BREAK"})
+  ELSE IF FirstHeaders /\ nstep = 0 THEN {"HEADERS"}
   ELSE LET all == (CKinds \cap {"HEADERS", "NEH", "SETTINGS", "PING"})
                   \cup (IF Used \/ ~Early THEN CKinds \cap {"DATA", "RST"} ELSE {})
                   \cup (IF Used \/ ~Early \/ 0 \in SidsUsed THEN CKinds \cap {"WU"} ELSE {})
@@ -47,6 +50,7 @@ Kinds ==
        all \ no
 Choose == /\ ~fin /\ StimAny /\ want = ""
           /\ want' \in Kinds
+          /\ salt' \in 1..(IF want' \in Heavy THEN 3 ELSE 1)
           /\ UNCHANGED <<p, st, maxId, inC, inS, buf, bst, clM, bodyM, outC, outS, iwsM, mfsM, ctl, sq,
                          needAck, ga, needGA, conn, hs, hk, hprog, hsent, hret, sent, mineM, tag, turn,
                          nstep, ndata, nhdrs, last, holdM, h, fin>>
@@ -59,10 +63,10 @@ GNext ==
      /\ h' = IF turn = "stim" THEN Append(h, [e |-> last', m |-> <<>>])
              ELSE IF turn' = "stim" THEN [h EXCEPT ![Len(h)].m = Summary']
              ELSE h
-     /\ fin' = FALSE
+     /\ fin' = FALSE /\ UNCHANGED salt
   \/ /\ ~fin /\ turn = "stim" /\ Len(h) >= MinSteps
      /\ (nstep = MaxSteps \/ conn # "up" \/ ga # -1 \/ p.dead)
-     /\ fin' = TRUE /\ UNCHANGED <<vars, h>>
+     /\ fin' = TRUE /\ UNCHANGED <<vars, h, salt>>
 
 \* printed once per behaviour, from the dedicated final step
 Emit == fin => PrintT(ToJson([steps |-> h]))
